@@ -255,7 +255,9 @@ def run_case(stream, seed, ctx, params):
         return run_deck(ctx, stream, d, ['--skip-deduplication'] if rng.random() < 0.5 else [], rng, npts=150,
                         with_comp=False)
     if stream in ('complement', 'boolmon'):
-        d = G.complement_chain_deck(rng) if rng.random() < 0.15 else G.build_flat_deck(rng, macro_p=0.2, imp0_p=0.1, p_obf=0.3)
+        m_ = rng.random()
+        d = (G.complement_chain_deck(rng) if m_ < 0.15 else G.union_complement_deck(rng) if m_ < 0.3
+             else G.build_flat_deck(rng, macro_p=0.2, imp0_p=0.1, p_obf=0.3))
         text = D.render_deck(d, D.Layout(rng))
         res, cap = C.convert_capture(text)
         key = h(text)
